@@ -620,7 +620,7 @@ func TestEnumUfsPrefixes(t *testing.T) {
 	if hx.Thorough() {
 		maxStream = 400
 	}
-	hx.Check(t, "ufs-prefixes", hx.N(1, 10), func(t *rapid.T) {
+	hx.Check(t, "ufs-prefixes", hx.N(1, 6), func(t *rapid.T) {
 		c := genUfsCase(t, 5, true)
 		// every offset is enumerated: keep the session short (the requests
 		// executing at the cut are kept)
